@@ -135,7 +135,10 @@ def _boundary_measure_bound(node, env0):
     return 1.0
 
 
-def gen_cases(seed, tier, stream, n_quick, n_thorough, **domkw):
+SCALES = [0.01, 0.05, 30.0, 300.0]
+
+
+def gen_cases(seed, tier, stream, n_quick, n_thorough, scales=False, **domkw):
     rng = np.random.default_rng([seed, stream])
     n = n_quick if tier == "quick" else n_thorough
     depth = 2 if tier == "quick" else 3
@@ -160,6 +163,11 @@ def gen_cases(seed, tier, stream, n_quick, n_thorough, **domkw):
                           "seed": int(rng.integers(0, 2 ** 31))})
             continue
         dom = gen_geo.gen_domain(rng, max_depth=int(rng.integers(1, depth + 1)), **domkw)
+        if scales and i % 6 == 1 and "product" not in geo.spec_ops(dom["spec"]):
+            # the same expression at another length scale (before the calls are planned: densities follow the scale)
+            S = float(SCALES[(i // 6) % len(SCALES)])
+            dom["spec"] = geo.scale_spec(dom["spec"], S)
+            dom["info"] = dict(dom["info"], scale=S)
         calls = plan_calls(rng, dom, tier)
         cases.append({"spec": dom["spec"], "rows": dom["rows"], "info": dom["info"], "k": dom["k"], "calls": calls,
                       "seed": int(rng.integers(0, 2 ** 31))})
